@@ -1,11 +1,16 @@
 import TR.Lemmas.Coalesce
+import TR.Lemmas.CoalesceHandle
 /-!
 # C11 — coalesce runs one inner call per key and shares its result with all waiters
 
 Quantification: every list of operations of `TR.Model.Coalesce` — any number of requests over
 any key space (`key : Nat`), every arrival / completion instant (`adv`), every cancellation
 point of leaders and waiters (`drop` between any two operations), inner outcomes ok / error /
-panic / never with any latency, and every poll order (including spurious polls).
+panic / never with any latency, every poll order (including spurious polls), and the moment
+at which the last `CoalesceService` handle is dropped (`Op.dropsvc`: before any arrival, with a
+leader and waiters in flight, after completion). The three statements about an *arrival*
+(`waiter_no_inner_at_arrival`, `fresh_call_when_free`, `call_panic_frees_key`) carry the
+hypothesis `svcGone = false`: a request can only be made through a handle that still exists.
 
 Vocabulary (`TR.Lemmas.Coalesce`): `LiveLeader s c key k` — caller `c` made inner call number
 `k` for `key` and its future still exists; `LiveWaiter s c key l` — caller `c` found `key`
@@ -59,11 +64,12 @@ theorem registered_iff_live_leader (ops : List Op) (key l : Nat) :
 /-- A request that arrives while its key is registered causes no event at all — in particular
 no `inner_call` — consumes no serial number, and becomes a waiter of the registered leader. -/
 theorem waiter_no_inner_at_arrival (ops : List Op) (c key ldr : Nat) (sc : Step) (cp : Bool)
+    (hs : (run ops).svcGone = false)
     (hc : lookup (run ops).role c = none) (hr : reg (run ops) key = some ldr) :
     (stepS (run ops) (.arrive c key sc cp)).log = (run ops).log ∧
     (stepS (run ops) (.arrive c key sc cp)).serial = (run ops).serial ∧
     LiveWaiter (stepS (run ops) (.arrive c key sc cp)) c key ldr := by
-  rw [arrive_registered sc cp hc hr]
+  rw [arrive_registered sc cp hs hc hr]
   exact ⟨rfl, rfl, lookup_cons_self .., fresh_not_gone (inv_reachable ops) hc⟩
 
 /-- … and never later either: no `inner_call` of a waiter occurs anywhere in any reachable log. -/
@@ -175,10 +181,11 @@ theorem key_free_again (ops : List Op) (l key k : Nat) (hl : LiveLeader (run ops
 /-- … and a request arriving for an unregistered key starts a fresh inner call in the very
 step of its arrival (the first new event is its `inner_call` with the next serial number). -/
 theorem fresh_call_when_free (ops : List Op) (c key : Nat) (sc : Step)
+    (hs : (run ops).svcGone = false)
     (hc : lookup (run ops).role c = none) (hr : reg (run ops) key = none) :
     (stepS (run ops) (.arrive c key sc false)).log = (run ops).log ++ [.innerCall c key (run ops).serial] ∧
     LiveLeader (stepS (run ops) (.arrive c key sc false)) c key (run ops).serial := by
-  rw [arrive_free sc hc hr]
+  rw [arrive_free sc hs hc hr]
   exact ⟨rfl, lookup_cons_self .., fresh_not_gone (inv_reachable ops) hc⟩
 
 /-- **A leader whose inner `call()` itself panics** gets the panic, and the key is unregistered
@@ -186,19 +193,22 @@ again in that very step (no inner call was logged, no serial consumed): the next
 key — `c'`, arriving at once — leads a fresh call. Nothing is left behind that a later request
 could wait on. -/
 theorem call_panic_frees_key (ops : List Op) (c c' key : Nat) (sc sc' : Step)
+    (hs : (run ops).svcGone = false)
     (hc : lookup (run ops).role c = none) (hr : reg (run ops) key = none)
     (hc' : lookup (run ops).role c' = none) (hne : c' ≠ c) :
     let s := stepS (run ops) (.arrive c key sc true)
     s.log = (run ops).log ++ [.result c .panic] ∧ reg s key = none ∧ s.serial = (run ops).serial ∧
     (stepS s (.arrive c' key sc' false)).log = s.log ++ [.innerCall c' key s.serial] := by
   intro s
-  have hs : s = leadPanic (run ops) c key := arrive_free_callPanics sc hc hr
+  have hs0 := hs
+  have hs : s = leadPanic (run ops) c key := arrive_free_callPanics sc hs hc hr
+  have hs' : s.svcGone = false := by rw [hs]; exact hs0
   have hreg : reg s key = none := by rw [hs]; exact hr
   have hrole : lookup s.role c' = none := by
     rw [hs]; show lookup ((c, _) :: (run ops).role) c' = none
     rw [lookup_cons_ne _ _ (fun e => hne e.symm)]; exact hc'
   refine ⟨by rw [hs]; rfl, hreg, by rw [hs]; rfl, ?_⟩
-  rw [arrive_free sc' hrole hreg]; rfl
+  rw [arrive_free sc' hs' hrole hreg]; rfl
 
 /-- a state in which polling any caller produces no event -/
 def Settled (s : State) : Prop := ∀ c, (stepS s (.poll c)).log = s.log
@@ -236,6 +246,134 @@ by `wake_by_ref` on its own waker (the implementation busy-polls), so an executo
 theorem waiter_always_rearmed (ops : List Op) (c key l : Nat) (hw : LiveWaiter (run ops) c key l) :
     lookup (run ops).awake c = some true :=
   (inv_reachable ops).awakeW c key l hw.1 hw.2
+
+/-! ## the lifetime of the service handle does not matter to calls in flight
+
+`Op.dropsvc` = every `CoalesceService` handle sharing the in-flight table (and the layer) is
+dropped: `svc.clone().oneshot(req)` bursts whose last request consumes the original handle, a
+temporary service, an owner shutting down while requests drain. The leader's future owns the
+table (`Arc`), so nothing in flight may notice. -/
+
+/-- **Dropping the last handle only stops arrivals.** For every history `pre`, and every
+continuation `post`: the state reached when the handle is dropped between them is — field for
+field: log, map, channels, roles, resolved callers, wake flags — the state reached by `pre`
+followed by `post` *with its arrivals deleted*, except for the flag recording that no handle is
+left. No result, no inner call, no cancellation is caused, prevented, changed or re-ordered. -/
+theorem handle_drop_only_stops_arrivals (pre post : List Op) :
+    run (pre ++ .dropsvc :: post) = closeSvc (run (pre ++ noArrivals post)) := by
+  rw [run_append, run_append, List.foldl_cons, stepS_dropsvc, foldl_closeSvc]
+
+/-- … in the property's observables: the same event log (every `inner_call`, `inner_done`,
+`inner_drop` and every caller's `result`, in the same order), the same registered keys, the same
+channels, the same set of callers still pending. -/
+theorem handle_drop_preserves_outcomes (pre post : List Op) :
+    (run (pre ++ .dropsvc :: post)).log = (run (pre ++ noArrivals post)).log ∧
+    (∀ key, reg (run (pre ++ .dropsvc :: post)) key = reg (run (pre ++ noArrivals post)) key) ∧
+    (run (pre ++ .dropsvc :: post)).chan = (run (pre ++ noArrivals post)).chan ∧
+    (run (pre ++ .dropsvc :: post)).gone = (run (pre ++ noArrivals post)).gone := by
+  rw [handle_drop_only_stops_arrivals]
+  exact ⟨rfl, fun _ => rfl, rfl, rfl⟩
+
+/-- **Outcomes are independent of *when* the handle is dropped.** Moving the drop of the last
+handle across any operations that are not arrivals (polls, drops of callers, time passing, in
+any number and order) leads to the very same state: dropped before the leader's first poll,
+between a waiter's polls, or after everything has completed — all the same. -/
+theorem handle_drop_time_irrelevant (pre mid post : List Op)
+    (hmid : ∀ op ∈ mid, op.isArrive = false) :
+    run (pre ++ .dropsvc :: (mid ++ post)) = run ((pre ++ mid) ++ .dropsvc :: post) := by
+  rw [handle_drop_only_stops_arrivals, handle_drop_only_stops_arrivals, noArrivals_append,
+    noArrivals_id hmid, List.append_assoc]
+
+/-- If no request arrives afterwards anyway, dropping the handle is unobservable: same log as
+if it had been kept for ever. -/
+theorem handle_drop_unobservable (pre post : List Op) (hpost : ∀ op ∈ post, op.isArrive = false) :
+    (run (pre ++ .dropsvc :: post)).log = (run (pre ++ post)).log := by
+  rw [handle_drop_only_stops_arrivals, noArrivals_id hpost]; rfl
+
+/-- **Waiters outlive the handle.** A live leader with a live waiter, then the last handle is
+dropped: the key stays registered to that leader, its channel stays open, leader and waiter are
+still live, and a poll of the waiter produces no event — it keeps waiting; it is *not* told that
+its leader was cancelled. (What it then receives is the leader's result or, iff the leader is
+dropped or panics, `err:leader_cancelled`: `waiter_gets_leader_result`,
+`completed_leader_waiter_resolves`, `leader_gone_fails_fast` hold for every operation sequence,
+those containing `dropsvc` included.) -/
+theorem waiters_outlive_the_handle (ops : List Op) (c key l k : Nat)
+    (hl : LiveLeader (run ops) l key k) (hw : LiveWaiter (run ops) c key l) :
+    let s := run (ops ++ [.dropsvc])
+    LiveLeader s l key k ∧ LiveWaiter s c key l ∧ reg s key = some l ∧
+    lookup s.chan l = some .opened ∧ (stepS s (.poll c)).log = s.log := by
+  intro s
+  have hs : s = closeSvc (run ops) := by
+    show run (ops ++ [.dropsvc]) = _
+    rw [run_append]; rfl
+  have inv := inv_reachable ops
+  have hreg : reg (run ops) key = some l := inv.leaderReg l key k hl.1 hl.2
+  have hch : lookup (run ops).chan l = some .opened := by
+    obtain ⟨ch, h1, h2⟩ := inv.chanOf l key k hl.1
+    rw [h1, h2.mpr hl.2]
+  have hl' : LiveLeader s l key k := by rw [hs]; exact hl
+  have hw' : LiveWaiter s c key l := by rw [hs]; exact hw
+  have hch' : lookup s.chan l = some .opened := by rw [hs]; exact hch
+  refine ⟨hl', hw', by rw [hs]; exact hreg, hch', ?_⟩
+  exact (poll_waiter_open hw' hch').1
+
+/-! ## a request arriving while a dropped leader is being torn down
+
+Dropping a leader is not instantaneous in the code: the key is unregistered and the inner future is
+destroyed, and the inner future's destructor is arbitrary code of the wrapped service (it may block while
+another thread calls the coalescing service, or make a request itself). Until that destructor has
+finished the leader's call is still in flight, so a request for the key arriving in that window has to be
+treated as arriving *before* the drop (`TR.Coalesce.dropOps`, `manual ondrop` in the harness). -/
+
+/-- Request `c` for `key` arrives, then the live leader `l` of `key` is dropped (in the code: `c` arrives
+while `l`'s inner future is being destroyed). The only event is `inner_drop l k` — `c` makes no inner
+call, so at no point are two calls for `key` in flight —, the key is free, and `c` is failed with
+`err:leader_cancelled` at its next poll. -/
+theorem request_during_leader_teardown (ops : List Op) (l key k c : Nat) (sc : Step) (cp : Bool)
+    (hs : (run ops).svcGone = false) (hl : LiveLeader (run ops) l key k)
+    (hc : lookup (run ops).role c = none) :
+    (run (ops ++ [.arrive c key sc cp, .drop l])).log = (run ops).log ++ [.innerDrop l key k] ∧
+    reg (run (ops ++ [.arrive c key sc cp, .drop l])) key = none ∧
+    (stepS (run (ops ++ [.arrive c key sc cp, .drop l])) (.poll c)).log
+      = (run (ops ++ [.arrive c key sc cp, .drop l])).log ++ [.result c .cancelled] := by
+  have hreg : reg (run ops) key = some l := (inv_reachable ops).leaderReg l key k hl.1 hl.2
+  have hrun1 : run (ops ++ [.arrive c key sc cp]) = joinWaiter (run ops) c key l := by
+    rw [run_append]; exact arrive_registered sc cp hs hc hreg
+  obtain ⟨hlog1, _, hw1⟩ := waiter_no_inner_at_arrival ops c key l sc cp hs hc hreg
+  have hw1' : LiveWaiter (run (ops ++ [.arrive c key sc cp])) c key l := by
+    rw [run_append]; exact hw1
+  have hl1 : LiveLeader (run (ops ++ [.arrive c key sc cp])) l key k := by
+    rw [hrun1]
+    exact ⟨role_ext _ hc hl.1, hl.2⟩
+  have e : ops ++ [.arrive c key sc cp, .drop l] = (ops ++ [.arrive c key sc cp]) ++ [.drop l] := by simp
+  have hrun2 : run ((ops ++ [.arrive c key sc cp]) ++ [.drop l])
+      = stepS (run (ops ++ [.arrive c key sc cp])) (.drop l) := by rw [run_append]; rfl
+  obtain ⟨hlog2, hreg2, _⟩ := leader_drop_closes _ l key k hl1
+  have hlog1' : (run (ops ++ [.arrive c key sc cp])).log = (run ops).log := by
+    rw [run_append]; exact hlog1
+  refine ⟨?_, ?_, ?_⟩
+  · rw [e, hrun2, hlog2, hlog1']
+  · rw [e, hrun2]; exact hreg2
+  · rw [e]
+    exact dropped_leader_waiter_fails_at_next_poll _ [] c key l k hl1 hw1' (by simp)
+
+/-- What the line-protocol driver makes of a `drop c` line (`dropOps`): the plain drop, or — when a
+request `c2` is scripted to arrive during the tear-down of `c` and the situation is exactly that of
+`request_during_leader_teardown` — that arrival followed by the drop. -/
+theorem dropOps_spec (s : State) (hooks : List (Nat × (Nat × Step))) (c : Nat) :
+    dropOps s hooks c = [.drop c] ∨
+    ∃ c2 key k sc, dropOps s hooks c = [.arrive c2 key sc false, .drop c] ∧
+      s.svcGone = false ∧ LiveLeader s c key k ∧ lookup s.role c2 = none := by
+  unfold dropOps
+  split
+  · rename_i c2 sc key k hh hr
+    split
+    · rename_i hcond
+      right
+      simp at hcond
+      exact ⟨c2, key, k, sc, rfl, hcond.1.1, ⟨hr, by simpa using hcond.1.2⟩, hcond.2⟩
+    · exact Or.inl rfl
+  · exact Or.inl rfl
 
 /-! ## non-vacuity: concrete histories that meet the hypotheses -/
 
@@ -277,5 +415,33 @@ example :
     s.log = [.result 1 .panic, .innerCall 2 7 0, .innerDone 2 7 0 .ok, .result 2 (.ok 0),
              .innerCall 3 7 1, .innerDone 3 7 1 .ok, .result 3 (.ok 1), .result 4 (.ok 1)] ∧
     reg s 7 = none := by decide
+
+/-- the seeded situation: leader 1 (10 ms) and waiters 2, 3 in flight, the last handle is dropped,
+a later request 4 is refused (no event), the waiters keep waiting (polls at t=0 and t=9 produce
+nothing) and receive the leader's `ok:0` once it has completed — never `leader_cancelled` -/
+example :
+    let ops := [Op.arrive 1 7 ⟨10, .ok⟩ false, .arrive 2 7 ⟨0, .ok⟩ false, .arrive 3 7 ⟨0, .ok⟩ false, .poll 2]
+    LiveLeader (run ops) 1 7 0 ∧ LiveWaiter (run ops) 2 7 1 ∧
+    (run (ops ++ [.dropsvc, .arrive 4 7 ⟨0, .ok⟩ false, .poll 2, .poll 3, .adv 9, .poll 1, .poll 3, .adv 1,
+                  .poll 2, .poll 1, .poll 2, .poll 3, .poll 4])).log
+      = [.innerCall 1 7 0, .innerDone 1 7 0 .ok, .result 1 (.ok 0), .result 2 (.ok 0), .result 3 (.ok 0)] ∧
+    (run (ops ++ [.dropsvc])).svcGone = true ∧ reg (run (ops ++ [.dropsvc])) 7 = some 1 := by
+  unfold LiveLeader LiveWaiter; decide
+
+/-- a leader dropped after the handle has gone still fails its waiter fast -/
+example :
+    (run [.arrive 1 7 ⟨10, .ok⟩ false, .arrive 2 7 ⟨0, .ok⟩ false, .dropsvc, .poll 2, .drop 1, .poll 2]).log
+      = [.innerCall 1 7 0, .innerDrop 1 7 0, .result 2 .cancelled] := by decide
+
+/-- the tear-down window: leader 1 with waiter 2; request 3 arrives while 1 is being dropped; a hook
+is armed for it, so the `drop 1` line stands for `arrive 3; drop 1`; only `inner_drop` happens and
+both 2 and 3 are failed with `leader_cancelled`; the next request leads call number 1 -/
+example :
+    let ops := [Op.arrive 1 7 ⟨10, .ok⟩ false, .arrive 2 7 ⟨0, .ok⟩ false]
+    dropOps (run ops) [(1, (3, ⟨5, .ok⟩))] 1 = [.arrive 3 7 ⟨5, .ok⟩ false, .drop 1] ∧
+    (run (ops ++ dropOps (run ops) [(1, (3, ⟨5, .ok⟩))] 1 ++ [.poll 2, .poll 3, .arrive 4 7 ⟨0, .ok⟩ false])).log
+      = [.innerCall 1 7 0, .innerDrop 1 7 0, .result 2 .cancelled, .result 3 .cancelled, .innerCall 4 7 1] := by
+  intro ops
+  exact ⟨rfl, by decide⟩
 
 end TR.Props.C11
